@@ -253,6 +253,18 @@ func checkStackOverflowAbort(c *core.Ctx) {
 	if p := c.Pkg("internal/engine/interpreter"); p != nil {
 		info := p.TypesInfo
 		n := 0
+		// functions that consult the ceiling themselves (a predicate such as callStackCeilingReached, or a checker)
+		consults := map[string]bool{}
+		core.AllFuncDecls(p, func(g *ast.FuncDecl) {
+			ast.Inspect(g.Body, func(x ast.Node) bool {
+				if id, ok := x.(*ast.Ident); ok {
+					if o, ok := info.Uses[id].(*types.Var); ok && o.Name() == "callStackCeiling" && len(g.Body.List) <= 6 {
+						consults[g.Name.Name] = true
+					}
+				}
+				return true
+			})
+		})
 		core.AllFuncDecls(p, func(fd *ast.FuncDecl) {
 			var befores []*ast.CallExpr
 			var guards []token.Pos
@@ -265,7 +277,7 @@ func checkStackOverflowAbort(c *core.Ctx) {
 								befores = append(befores, y)
 							}
 						}
-						if se.Sel.Name == "pushFrame" || interpCeilingCheckers(p)[se.Sel.Name] {
+						if se.Sel.Name == "pushFrame" || interpCeilingCheckers(p)[se.Sel.Name] || consults[se.Sel.Name] {
 							guards = append(guards, y.Pos())
 						}
 					}
